@@ -498,14 +498,16 @@ Proof.
     + rewrite E2. cbn [xbind fst snd]. eauto.
 Qed.
 
-Theorem roundtrip_parse_sound d bin vs argv m :
-  opt_struct d -> printable (d_nodes d) vs -> ok_nodes (d_nodes d) vs ->
+(** the matches of the REAL parse of the printed line agree with the printed entries on the raw groups of every field *)
+Theorem roundtrip_parse_agrees d bin vs argv m :
+  opt_struct d -> printable (d_nodes d) vs ->
   valid (with_bin (derive_cmd d) bin) = true ->
   print d vs = Some argv ->
   parse_top (derive_cmd d) (bin :: argv) = OOk m ->
-  extract d m = XOk vs.
+  forall f v g, at_node (d_nodes d) vs f v -> field_groups f v = Some g ->
+    raw_at (f_id f) (ms_args m) = raw_at (f_id f) (field_entry f g).
 Proof.
-  intros (Hfo & Hof & Hndk & Hndi) Hpr Hok Hv Hprint Hparse.
+  intros (Hfo & Hof & Hndk & Hndi) Hpr Hv Hprint Hparse.
   assert (Hk : Forall (fun f => kind_ok (f_kind f) = true) (fields_of (d_nodes d))).
   { eapply Forall_impl; [|exact Hof]. intros f Hf. apply Hf. }
   (* the printed line *)
@@ -544,8 +546,7 @@ Proof.
   (* per field: the matches hold what the printed entries hold *)
   pose proof (assert_app_ids_distinct _ (conv_app _ Hconv)) as Hids.
   pose proof (react_all_pending_keep _ _ _ _ E1 eq_refl) as P1.
-  unfold extract. destruct (extract_fields (d_nodes d) vs p (into_inner (mt st)) Hfo Hndi Hok P) as [m' Ex].
-  - intros f v g Hat Hg. cbn [into_inner ms_args]. rewrite field_entry_raw.
+  intros f v g Hat Hg. try rewrite <- Em. cbn [into_inner ms_args]. rewrite field_entry_raw.
     assert (Hf : In f (fields_of (d_nodes d))).
     { clear - Hat Hfo. revert vs Hat. induction (d_nodes d) as [|n t IHt]; intros vs Hat; [destruct Hat|].
       destruct n as [f2| |]; cbn [fields_only] in Hfo; try discriminate Hfo. destruct vs as [|v2 vt]; [destruct Hat|].
@@ -565,7 +566,21 @@ Proof.
       unfold raw_at. destruct (bf_frame f) as (_ & _ & _ & _ & _ & _ & Hdl & _ & Henv & Hifs & _).
       rewrite (post_loop_absent (built d bin) st1 st (bf f) Hids P1 E2 Hin Henv Hifs (eq_trans Hdl Hd) G1).
       rewrite bf_default_eq. reflexivity.
-  - try rewrite <- Em. rewrite Ex. reflexivity.
+Qed.
+
+Theorem roundtrip_parse_sound d bin vs argv m :
+  opt_struct d -> printable (d_nodes d) vs -> ok_nodes (d_nodes d) vs ->
+  valid (with_bin (derive_cmd d) bin) = true ->
+  print d vs = Some argv ->
+  parse_top (derive_cmd d) (bin :: argv) = OOk m ->
+  extract d m = XOk vs.
+Proof.
+  intros Hs Hpr Hok Hv Hprint Hparse.
+  pose proof (roundtrip_parse_agrees d bin vs argv m Hs Hpr Hv Hprint Hparse) as Hag.
+  destruct Hs as (Hfo & Hof & Hndk & Hndi).
+  unfold print, print_top in Hprint. destruct (print_nodes (d_nodes d) vs) as [p|] eqn:P; [|discriminate Hprint].
+  unfold extract. destruct (extract_fields (d_nodes d) vs p m Hfo Hndi Hok P Hag) as [m' Ex].
+  rewrite Ex. reflexivity.
 Qed.
 
 (** the printed line is the rendering of a well-formed invocation of the built command whose occurrences are
